@@ -216,3 +216,26 @@ Proof.
     + exfalso. rewrite Du in Hnth. unfold pmul, pcons, z0 in Hnth. cbn [snd pmul_l hd pmul1] in Hnth.
       discriminate Hnth.
 Qed.
+
+(* ---------- measurement keeps full stabilizer states full --------------------------------------------------- *)
+Theorem meas_inplace_full n p coin t : p < n -> valid n t -> length t = n ->
+  let m := measure n p true coin t in snd (fst m) = n /\ valid n (snd m) /\ length (snd m) = n.
+Proof.
+  intros Hp V L m. pose proof (meas_inplace_valid n p coin t Hp V) as V1. fold m in V1. destruct V as (W & C & I).
+  unfold m in *. destruct (random_branch n p t) eqn:Hr.
+  - destruct (meas_random n p coin t Hp W C Hr) as (res & E & _ & _ & Lr & _). rewrite E in *. cbn [fst snd] in *.
+    repeat split; auto; try apply V1. lia.
+  - destruct (meas_determined n p coin t Hp W C Hr) as (res & E & _ & _ & Lr & _). rewrite E in *. cbn [fst snd] in *.
+    repeat split; auto; try apply V1. lia.
+Qed.
+
+Theorem meas_destructive_full n p coin t : p < n -> valid n t -> length t = n ->
+  let m := measure n p false coin t in snd (fst m) = n - 1 /\ valid (n - 1) (snd m) /\ length (snd m) = n - 1.
+Proof.
+  intros Hp V L m. unfold m. destruct (random_branch n p t) eqn:Hr.
+  - destruct V as (W & C & I).
+    destruct (meas_random_destructive n p coin t Hp W C Hr) as (res & resd & _ & E & Wd & Cd & Ld & _ & Hi).
+    rewrite E. cbn [fst snd]. repeat split; auto; [apply Hi; auto | lia].
+  - destruct (meas_determined_destructive n p coin t Hp V L Hr) as (res & resd & _ & E & _ & Wd & Cd & Id & Ld & _).
+    rewrite E. cbn [fst snd]. repeat split; auto.
+Qed.
